@@ -147,3 +147,4 @@ reg('C17', 'bounds', 'rule_encoder_total', ('dev', 'release'))
 reg('C12', 'bounds', 'rule_encoder_total')   # an encoder that panics on a decodable value does not round-trip it
 reg('C12', 'codec', 'rule_enc_omit')
 reg('C04', 'codec', 'rule_enc_omit')         # columns=false attribution is what the line-only encoder writes
+reg('C17', 'bounds', 'rule_views_total', ('dev', 'release'))
